@@ -277,10 +277,26 @@ fn absorb(rows: Vec<Row>, rep: &mut Report) {
         rep.hit("recall:measurements");
         if !r.ok() {
             let base = r.workload.split(['(', ':']).next().unwrap_or(&r.workload).to_string();
+            let family = base.split('+').next().unwrap().to_string();
+            let documented = WORKLOADS.iter().any(|(n, s)| *n == family && *s == r.seed);
+            // which part failed: a soundness violation, the average floor, or only the per-query minimum
+            let part = if !r.bad.is_empty() { "soundness" } else if r.avg < r.floor_avg { "avg" } else { "min" };
+            // The statement speaks of recall on the DOCUMENTED deterministic workloads (the seeds of tests/recall.rs).
+            // A recall number of an extra seed is outside the statement: measured only, never an oracle failure.
+            // (A soundness violation — dead id, duplicate, failed search — is in the statement for every input.)
+            if !documented && part != "soundness" {
+                rep.hit("recall:extra-seed-below-documented-floor");
+                let l = rep.measured.entry("recall_extra_seeds_below_documented_floor (measured, outside the statement)".into()).or_insert_with(|| json!([]));
+                if let Some(a) = l.as_array_mut() {
+                    a.push(json!({"workload": r.workload, "seed": r.seed, "part": part, "avg": (r.avg * 1e4).round() / 1e4, "min": r.min,
+                                  "floor_avg": (r.floor_avg * 1e4).round() / 1e4, "floor_min": r.floor_min}));
+                }
+                continue;
+            }
             rep.oracle_failure(
-                &format!("recall:{base}"),
-                "recall@10 (or soundness) on a documented workload is below its floor",
-                &[format!("recall {} {}", base.split('+').next().unwrap(), r.seed)],
+                &format!("recall:{base}:{part}:{}", if documented { "documented-seed" } else { "extra-seed" }),
+                "recall@10 (or soundness) on a documented workload is below its floor (recall is a statistic of a randomised graph: a replay re-measures, it does not reproduce bit for bit)",
+                &[format!("recall {family} {}", r.seed)],
                 &format!("avg >= {:.4}, min >= {:.2}, no soundness violation", r.floor_avg, r.floor_min),
                 &format!("{}: avg {:.4} min {:.2} {:?}", r.workload, r.avg, r.min, r.bad.iter().take(3).collect::<Vec<_>>()),
             );
@@ -293,7 +309,8 @@ fn absorb(rows: Vec<Row>, rep: &mut Report) {
 }
 
 pub fn suite(rt: &Runtime, args: &Args, rep: &mut Report) {
-    let extra = args.budget(1, 12);
+    // quick: the documented seeds only; thorough: 12 more seeds per workload
+    let extra = args.budget(0, 12);
     let mut rows = vec![];
     for (name, seed) in WORKLOADS {
         run_workload(rt, name, seed, &mut rows);
